@@ -235,7 +235,7 @@ static void on_signal (int sig, siginfo_t *si, void *ucv) {
     _exit (4);
   }
   sig_kind = sig == SIGALRM ? 2 : (sig == SIGILL || sig == SIGFPE || sig == SIGTRAP) ? 3 : 1;
-  sig_addr = sig_kind == 3 ? rip : (uint64_t) si->si_addr;
+  sig_addr = sig_kind == 3 ? (sig == SIGTRAP ? rip - 1 : rip) : (uint64_t) si->si_addr; /* int3 is a trap: rip is already past it */
   siglongjmp (jb, 1);
 }
 
